@@ -66,6 +66,7 @@ class State:
         s.tls = {}           # (thread, name) -> Ptr
         s.depth = 0
         s.extra = {}
+        s.known = {}
 
     def fork(s):
         t = State.__new__(State)
@@ -87,6 +88,7 @@ class State:
         t.tls = dict(s.tls)
         t.depth = s.depth + 1
         t.extra = dict(s.extra)
+        t.known = dict(s.known)
         return t
 
 
@@ -110,6 +112,154 @@ def sgn(a, w):
 
 def realv(x):
     return f2real(x) if isinstance(x, float) else x
+
+
+class PModel:
+    """partial model: variable id -> (variable, value); merged from the models of independent slices"""
+    __slots__ = ('vals',)
+
+    def __init__(s, vals=None):
+        s.vals = vals if vals is not None else {}
+
+    def eval(s, e, completion=False):
+        subs = []
+        for vid, var in free_vars(e):
+            ent = s.vals.get(vid)
+            if ent is not None:
+                subs.append((var, ent[1]))
+            elif completion:
+                subs.append((var, _default_val(var)))
+        if not subs:
+            return z3.simplify(e) if completion else e
+        return z3.simplify(z3.substitute(e, *subs))
+
+
+def _default_val(var):
+    if z3.is_bv(var):
+        return z3.BitVecVal(0, var.size())
+    if z3.is_real(var):
+        return z3.RealVal(0)
+    if z3.is_int(var):
+        return z3.IntVal(0)
+    if z3.is_bool(var):
+        return z3.BoolVal(False)
+    if z3.is_fp(var):
+        return z3.FPVal(0.0, var.sort())
+    raise Exception('default value for sort ' + str(var.sort()))
+
+
+_FV = {}
+
+
+def free_vars(e):
+    """tuple of (id, var) of the uninterpreted constants in e (cached per expression)"""
+    i = e.get_id()
+    r = _FV.get(i)
+    if r is not None:
+        return r[1]
+    out = {}
+    seen = set()
+    stack = [e]
+    while stack:
+        x = stack.pop()
+        xi = x.get_id()
+        if xi in seen:
+            continue
+        seen.add(xi)
+        if z3.is_const(x):
+            if x.decl().kind() == z3.Z3_OP_UNINTERPRETED:
+                out[xi] = x
+            continue
+        if z3.is_app(x):
+            stack.extend(x.children())
+    res = tuple(out.items())
+    if len(_FV) > 200000:
+        _FV.clear()
+    _FV[i] = (e, res)
+    return res
+
+
+_LE_KINDS = (z3.Z3_OP_LE, z3.Z3_OP_SLEQ, z3.Z3_OP_ULEQ)
+
+
+def _atom(c):
+    """strip negations: returns (atom, polarity)"""
+    pol = True
+    while z3.is_not(c):
+        c = c.arg(0)
+        pol = not pol
+    return c, pol
+
+
+def _mk_le(kind, a, b):
+    if kind == z3.Z3_OP_LE:
+        return a <= b
+    if kind == z3.Z3_OP_SLEQ:
+        return a <= b
+    return z3.ULE(a, b)
+
+
+def _kget(kn, a):
+    v = kn.get(a.get_id())
+    return None if v is None else v[0]
+
+
+def known_lookup(st, cond):
+    a, pol = _atom(cond)
+    v = st.known.get(a.get_id())
+    if v is None:
+        return None
+    return v[0] == pol
+
+
+def known_learn(st, cond):
+    """record a decided atom and the order facts it implies (total orders: reals, signed and unsigned bit-vectors)"""
+    a, pol = _atom(cond)
+    kn = st.known
+    kn[a.get_id()] = (pol, a)
+    try:
+        k = a.decl().kind()
+    except Exception:
+        return
+    if k in _LE_KINDS and a.num_args() == 2:
+        x, y = a.arg(0), a.arg(1)
+        rev = z3.simplify(_mk_le(k, y, x))
+        eq = z3.simplify(x == y)
+        ra, rp = _atom(rev)
+        ea, ep = _atom(eq)
+        if not pol:
+            # x > y: y <= x holds, x == y does not
+            if not z3.is_true(ra) and not z3.is_false(ra):
+                kn[ra.get_id()] = (rp, ra)
+            if not z3.is_true(ea) and not z3.is_false(ea):
+                kn[ea.get_id()] = (not ep, ea)
+        else:
+            rv = _kget(kn, ra)
+            ev = _kget(kn, ea)
+            if rv is not None and (rv == rp) and not z3.is_true(ea) and not z3.is_false(ea):
+                kn[ea.get_id()] = (ep, ea)           # x<=y and y<=x: equal
+            elif ev is not None and (ev != ep) and not z3.is_true(ra) and not z3.is_false(ra):
+                kn[ra.get_id()] = (not rp, ra)       # x<=y and x!=y: not y<=x
+    elif k == z3.Z3_OP_EQ and a.num_args() == 2:
+        x, y = a.arg(0), a.arg(1)
+        if z3.is_bv(x) or z3.is_real(x) or z3.is_int(x):
+            kinds = (z3.Z3_OP_SLEQ, z3.Z3_OP_ULEQ) if z3.is_bv(x) else (z3.Z3_OP_LE,)
+            for kk in kinds:
+                for (p_, q_) in ((x, y), (y, x)):
+                    le = z3.simplify(_mk_le(kk, p_, q_))
+                    la, lp = _atom(le)
+                    if z3.is_true(la) or z3.is_false(la):
+                        continue
+                    if pol:
+                        kn[la.get_id()] = (lp, la)
+                    else:
+                        # x != y: if p<=q is known true then q<=p is false
+                        lv = _kget(kn, la)
+                        if lv is not None and lv == lp:
+                            other = z3.simplify(_mk_le(kk, q_, p_))
+                            oa, op_ = _atom(other)
+                            if not z3.is_true(oa) and not z3.is_false(oa):
+                                kn[oa.get_id()] = (not op_, oa)
 
 
 class Engine:
@@ -145,6 +295,7 @@ class Engine:
         s.aborted = None
         s.nbranch = 0
         s.npruned = 0
+        s.nknown = 0
 
     # ------------------------------------------------------------------ solver
     def _sync(s, pc):
@@ -171,34 +322,61 @@ class Engine:
             s.litkeep.append(c)
         return b
 
-    def query(s, st, extra):
-        """sat/unsat/unknown of pc + extra; returns (result string, model or None)"""
+    def _slice(s, st, seed_exprs):
+        """constraints of the path condition that share variables (transitively) with the seeds"""
+        rel = set()
+        for e in seed_exprs:
+            for vid, _ in free_vars(e):
+                rel.add(vid)
+        pcs = [(c, [vid for vid, _ in free_vars(c)]) for c in st.pc]
+        chosen = []
+        changed = True
+        while changed and pcs:
+            changed = False
+            rest = []
+            for c, ids in pcs:
+                hit = False
+                for v in ids:
+                    if v in rel:
+                        hit = True
+                        break
+                if hit:
+                    chosen.append(c)
+                    rel.update(ids)
+                    changed = True
+                else:
+                    rest.append((c, ids))
+            pcs = rest
+        return chosen, rel
+
+    def query(s, st, extra, full=False, seeds=()):
+        """sat/unsat/unknown of pc + extra; returns (result string, merged partial model or None)"""
         s.nq += 1
         t = time.time()
-        if s.o['solver_mode'] == 'assume':
-            if len(s.lits) > 30000:
-                s.solver = z3.Solver()
-                if s.o['query_timeout_ms']:
-                    s.solver.set('timeout', s.o['query_timeout_ms'])
-                s.lits = {}
-                s.litkeep = []
-            a = [s._lit(c) for c in st.pc]
-            if isinstance(extra, (list, tuple)):
-                a += [s._lit(c) for c in extra]
-            else:
-                a.append(s._lit(extra))
-            r = s.solver.check(*a)
-            m = s.solver.model() if r == z3.sat else None
+        extras = list(extra) if isinstance(extra, (list, tuple)) else [extra]
+        if full:
+            cons, rel = list(st.pc), None
         else:
-            s._sync(st.pc)
-            s.solver.push()
-            if isinstance(extra, (list, tuple)):
-                s.solver.add(*extra)
-            else:
-                s.solver.add(extra)
-            r = s.solver.check()
-            m = s.solver.model() if r == z3.sat else None
-            s.solver.pop()
+            cons, rel = s._slice(st, extras + list(seeds))
+        if len(s.lits) > 3000:
+            s.solver = z3.Solver()
+            if s.o['query_timeout_ms']:
+                s.solver.set('timeout', s.o['query_timeout_ms'])
+            s.lits = {}
+            s.litkeep = []
+        a = [s._lit(c) for c in cons] + [s._lit(c) for c in extras]
+        r = s.solver.check(*a)
+        m = None
+        if r == z3.sat:
+            zm = s.solver.model()
+            vals = dict(st.model.vals) if st.model is not None else {}
+            allv = {}
+            for c in cons + extras + list(seeds):
+                for vid, var in free_vars(c):
+                    allv[vid] = var
+            for vid, var in allv.items():
+                vals[vid] = (var, zm.eval(var, True))
+            m = PModel(vals)
         s.qt += time.time() - t
         if r == z3.sat:
             return 'sat', m
@@ -206,12 +384,25 @@ class Engine:
             return 'unsat', None
         return 'unknown', None
 
+    def fullmodel(s, st, extra=None, hint=None):
+        """a partial model that is checked to satisfy the whole path condition (+ extra)"""
+        pm = hint if hint is not None else st.model
+        cons = list(st.pc) + ([extra] if extra is not None else [])
+        if pm is not None:
+            ok = True
+            for c in cons:
+                if not z3.is_true(pm.eval(c, True)):
+                    ok = False
+                    break
+            if ok:
+                return pm
+        r, m = s.query(st, [extra] if extra is not None else [z3.BoolVal(True)], full=True)
+        if r != 'sat':
+            raise Inconclusive('path condition not satisfiable/unknown when a full model was needed')
+        return m
+
     def model_of(s, st):
-        if st.model is None:
-            r, m = s.query(st, z3.BoolVal(True))
-            if r != 'sat':
-                raise Inconclusive('path condition not satisfiable/unknown when a model was needed')
-            st.model = m
+        st.model = s.fullmodel(st)
         return st.model
 
     def may(s, st, cond):
@@ -225,8 +416,12 @@ class Engine:
             return True, st.model
         if z3.is_false(cond):
             return False, None
+        kv = known_lookup(st, cond)
+        if kv is False:
+            s.nknown += 1
+            return False, None
         if st.model is not None:
-            if z3.is_true(st.model.eval(cond, True)):
+            if z3.is_true(st.model.eval(cond)):
                 return True, st.model
         r, m = s.query(st, cond)
         if r == 'unknown':
@@ -237,16 +432,20 @@ class Engine:
         if cond is True:
             return
         st.pc.append(cond)
+        known_learn(st, cond)
         if model is not None:
             st.model = model
-        elif st.model is not None and not z3.is_true(st.model.eval(cond, True)):
-            st.model = None
+        elif st.model is not None and not z3.is_true(st.model.eval(cond)):
+            # the cached values of every variable connected to cond are no longer known to be consistent
+            _, rel = s._slice(st, [cond])
+            vals = {k: v for k, v in st.model.vals.items() if k not in rel}
+            st.model = PModel(vals)
 
     def enumerate(s, st, e, limit):
         vals = []
         cons = []
         while True:
-            r, m = s.query(st, cons) if cons else s.query(st, z3.BoolVal(True))
+            r, m = s.query(st, cons if cons else [z3.BoolVal(True)], seeds=[e])
             if r == 'unknown':
                 raise Inconclusive('solver unknown during enumeration')
             if r == 'unsat':
@@ -852,9 +1051,7 @@ class Engine:
     # ------------------------------------------------------------------ reporting
     def report(s, st, kind, msg, cond=None, model=None, label=None):
         """record a violation on this path.  cond = the violating condition (already known satisfiable)."""
-        if model is None:
-            model = s.model_of(st)
-        known_tag = None
+        model = s.fullmodel(st, cond, hint=model)
         v = {'kind': kind, 'msg': msg, 'label': label, 'inputs': s.inputs_of(st, model), 'tags': {},
              'notes': s.notes_of(st, model), 'where': s.where(st), 'entry': s.entry}
         for name, tc in st.tags.items():
@@ -1275,10 +1472,14 @@ class Engine:
             return ins[2]
         if z3.is_false(cond):
             return ins[3]
+        kv = known_lookup(st, cond)
+        if kv is not None:
+            s.nknown += 1
+            return ins[2] if kv else ins[3]
         t_ok = f_ok = None
         tm = fm = None
         if st.model is not None:
-            val = st.model.eval(cond, True)
+            val = st.model.eval(cond)
             if z3.is_true(val):
                 t_ok = True
                 tm = st.model
@@ -1305,14 +1506,18 @@ class Engine:
             fr2.ins = fr2.f['blocks'][ins[3]]
             fr2.ip = 0
             st2.pc.append(ncond)
+            known_learn(st2, ncond)
             st2.model = fm
             s.work.append(st2)
             st.pc.append(cond)
+            known_learn(st, cond)
             st.model = tm
             return ins[2]
         if t_ok:
+            known_learn(st, cond)       # implied by the path condition
             return ins[2]
         if f_ok:
+            known_learn(st, ncond)
             return ins[3]
         raise PathEnd()
 
